@@ -24,7 +24,8 @@ D2 = "pos-equals-chromlen-zero-based"
 RULE = ("tables: corpus (uniform / shorter last / LONGER last / one-bin / variable, incl. the D1 tables) + seeded random tables; per table: "
         "record sets drawn from the positions {0, L-1, every bin edge, edge+-1} of every chromosome pair (valid stream), the same with one "
         "record at -1 / L / L+1 (after the one-based shift) or on an unknown chromosome (malformed stream), each run x {zero,one}-based x "
-        "{reflect,drop,None,raise} x {pairs,bg2 schema, sided payload} x {given,reversed,shuffled order} x {1 chunk, 2 chunks, singletons}; "
+        "{reflect,drop,None,raise} x {pairs,bg2 schema, sided payload} x {chromosome columns as strings / integer ids / pandas Categorical with "
+        "categories in bin order, alphabetical, reversed, with unused extras, subset} x {positions int64,int32,uint32} x {given,reversed,shuffled order} x {1 chunk, 2 chunks, singletons}; "
         "sanitize_pixels on random bin-id records; aggregate_records on every accepted output; CLI: cload pairs / load bg2 / load coo on "
         "small files with several chunks. One evaluation = one API call or CLI run compared with the model and the oracle. "
         "non-trivial = at least one retained record on a table with >=2 bins; distinct by full input")
